@@ -349,7 +349,7 @@ StepOp(x, t) ==
     [] op[1] = "send" ->
          [Emit(x, t, [e |-> "send_begin", v |-> op[2]]) EXCEPT !.th[t].v = op[2], !.th[t].pc = "lock_ch", !.th[t].ret = "send"]
     [] op[1] = "isclosed" ->
-         [x EXCEPT !.th[t].pc = "lock_ch", !.th[t].ret = "isclosed"]
+         [Emit(x, t, [e |-> "isclosed_begin"]) EXCEPT !.th[t].pc = "lock_ch", !.th[t].ret = "isclosed"]
     [] op[1] = "dropguard" ->
          [Emit(x, t, [e |-> "guard_drop_begin"]) EXCEPT !.th[t].pc = "lock_ch", !.th[t].ret = "gdrop"]
     [] op[1] = "psend" ->
